@@ -94,7 +94,9 @@ Record lvrec := mklv { lv_labels : tuple; lv_datum : nat; lv_expiry : Z }.
 (* heap of datum cells + Metrics[i].LabelValues in slice (insertion) order *)
 Record store := mkstore { s_heap : list dcell; s_mets : list (list lvrec) }.
 
-Definition memo := list (bytes * timeval).   (* timeMemos, most recently used first *)
+(* timeMemos: (layout, value) -> parsed time, most recently used first; only
+   successful parses are memoised *)
+Definition memo := list ((bytes * bytes) * timeval).
 
 (* what survives from one line to the next *)
 Record vmstate := mkvm { vs_store : store; vs_memo : memo }.
@@ -380,22 +382,24 @@ Definition with_match (t : thread) (s : list val) (k : Z) (m : option (list byte
   mkthread (t_pc t) (VBool b :: s) (t_matched t) ((k, groups) :: match_del k (t_matches t)) (t_time t).
 
 (* groupcache lru, MaxEntries 64 *)
-Fixpoint memo_del (k : bytes) (l : memo) : memo :=
+Definition mkey_eqb (a b : bytes * bytes) : bool :=
+  bytes_eqb (fst a) (fst b) && bytes_eqb (snd a) (snd b).
+Fixpoint memo_del (k : bytes * bytes) (l : memo) : memo :=
   match l with
   | [] => []
-  | (k', v) :: r => if bytes_eqb k k' then r else (k', v) :: memo_del k r
+  | (k', v) :: r => if mkey_eqb k k' then r else (k', v) :: memo_del k r
   end.
-Fixpoint memo_find (k : bytes) (l : memo) : option timeval :=
+Fixpoint memo_find (k : bytes * bytes) (l : memo) : option timeval :=
   match l with
   | [] => None
-  | (k', v) :: r => if bytes_eqb k k' then Some v else memo_find k r
+  | (k', v) :: r => if mkey_eqb k k' then Some v else memo_find k r
   end.
-Definition memo_get (k : bytes) (l : memo) : option (timeval * memo) :=
+Definition memo_get (k : bytes * bytes) (l : memo) : option (timeval * memo) :=
   match memo_find k l with
   | Some v => Some (v, (k, v) :: memo_del k l)
   | None => None
   end.
-Definition memo_add (k : bytes) (v : timeval) (l : memo) : memo :=
+Definition memo_add (k : bytes * bytes) (v : timeval) (l : memo) : memo :=
   let l' := (k, v) :: memo_del k l in
   if Nat.ltb 64 (length l') then removelast l' else l'.
 
@@ -405,7 +409,7 @@ Definition memo_add (k : bytes) (v : timeval) (l : memo) : memo :=
 Inductive xres :=
 | XNext (t : thread) (s : vmstate)
 | XStop
-| XErr (e : err) (s : vmstate).   (* errorf after the state was changed (Strptime) *)
+| XErr (e : err) (s : vmstate).   (* errorf after the state was changed (not used by the current code) *)
 
 Definition next (t : thread) (s : vmstate) : res xres := Ok (XNext t s).
 Definition with_store (s : vmstate) (st : store) : vmstate := mkvm st (vs_memo s).
@@ -557,12 +561,14 @@ Definition exec (line : logline) (i : instr) (t : thread) (s : vmstate) : res xr
             then Ok (nth (Z.to_nat sidx) m [], s3) else Fl FIndex
         | _ => Fl (FRepr (kind_of v))    (* Go: silently parses "" *)
         end;
-      match memo_get ts (vs_memo s) with
+      (* [time_parse] stands for parseTime followed by adjustYear; the Go memo
+         holds the value before adjustYear, which is a function of that value *)
+      match memo_get (layout, ts) (vs_memo s) with
       | Some (tm, mm) => next (with_time t s3 tm) (mkvm st mm)
       | None =>
           match time_parse E layout ts with
-          | Some tm => next (with_time t s3 tm) (mkvm st (memo_add ts tm (vs_memo s)))
-          | None => Ok (XErr EStrptime (mkvm st (memo_add ts zero_time (vs_memo s))))
+          | Some tm => next (with_time t s3 tm) (mkvm st (memo_add (layout, ts) tm (vs_memo s)))
+          | None => Er EStrptime      (* nothing is memoised, the time register is unchanged *)
           end
       end
   | Timestamp =>
